@@ -224,6 +224,12 @@ pub fn run_check(tier: &str) -> i32 {
                 result.accum.evaluations += fr.executions;
                 *result.accum.counters.entry("libfuzzer:c18_parse_errors:executions".to_string()).or_default() += fr.executions;
                 *result.accum.counters.entry("libfuzzer:c18_parse_errors:corpus-files".to_string()).or_default() += fr.corpus_files as u64;
+                for (k, pth) in fr.timeouts.iter().enumerate() {
+                    *result.accum.counters.entry("libfuzzer:c18_parse_errors:time-limit-inputs(inconclusive, saved)".to_string()).or_default() += 1;
+                    let dir = out_root().join("evidence").join("replays");
+                    let _ = std::fs::create_dir_all(&dir);
+                    let _ = std::fs::write(dir.join(format!("C18-libfuzzer-time-limit-{}.txt", k)), std::fs::read(pth).unwrap_or_default());
+                }
                 let arts: Vec<String> = fr.artifacts.iter().filter_map(|p| std::fs::read(p).ok()).filter_map(|b| String::from_utf8(b).ok()).collect();
                 let r = run_fixed(
                     &spec,
